@@ -637,3 +637,68 @@ class CrossValReference(Contract):
             "scores_equal_metrics_of_independently_fitted_models_on_train_rows_scored_on_test_rows": bool(np.allclose(scores, want, rtol=1e-8, atol=1e-10)),
             "estimator_passed_in_left_untouched": bool(untouched),
         }
+
+
+def splinecv_reference(scale, scoring, seed, delayed):
+    """Client of the real SplineCV: data of a given magnitude, a damping grid whose best member is not the first one."""
+    import warnings
+
+    from sklearn.model_selection import KFold
+
+    rng = np.random.RandomState(seed)
+    n = 40
+    e, nn = rng.uniform(0, 10, n), rng.uniform(0, 10, n)
+    d = scale * (np.sin(e / 2.0) + 0.5 * np.cos(nn / 3.0) + 0.25 * rng.normal(size=n))
+    dampings = (1e1, 1e-2, 1e-9)  # the best candidate is NOT the first one
+    cv = KFold(n_splits=3, shuffle=True, random_state=seed)
+    with warnings.catch_warnings():
+        warnings.simplefilter("ignore")
+        est = verde.SplineCV(dampings=dampings, mindists=(0,), cv=cv, scoring=scoring, delayed=delayed).fit((e, nn), d)
+        pred = est.predict((e + 0.3, nn - 0.2))
+    scores = [float(x.compute()) if hasattr(x, "compute") else float(x) for x in list(est.scores_)]  # delayed: still lazy
+    return (e, nn, d, dampings), est.damping_, np.asarray(scores, dtype=float), pred
+
+
+@register
+class SplineCVReference(Contract):
+    """Run-time contract (BOUNDED): SplineCV picks the candidate with the highest mean cross-validated score - for ANY
+    magnitude of the scores (error-type scorers on small data give scores ~ 1e-9) - and then predicts like that Spline."""
+
+    target = "contracts.scoring_c12:splinecv_reference"
+    cover_return = False
+
+    def configs(self, tier):
+        return []
+
+    def samples(self, rng, nrng, tier):
+        for scale in (1.0, 1e-4, 1e4):
+            for scoring in (None, "neg_mean_squared_error"):
+                yield (scale, scoring, rng.randint(0, 99), rng.random() < 0.5), {}
+
+    def ensures(self, a, r):
+        import warnings
+
+        from sklearn.metrics import mean_squared_error, r2_score
+        from sklearn.model_selection import KFold
+
+        (e, nn, d, dampings), chosen, scores, pred = r
+        e, nn, d = unwrap(e), unwrap(nn), unwrap(d)
+        fn = r2_score if a.scoring is None else (lambda y, p: -mean_squared_error(y, p))
+        means = []
+        with warnings.catch_warnings():
+            warnings.simplefilter("ignore")
+            for damping in dampings:
+                fold = []
+                for tr, te in KFold(n_splits=3, shuffle=True, random_state=a.seed).split(np.transpose((e, nn))):
+                    m = verde.Spline(damping=damping, mindist=0).fit((e[tr], nn[tr]), d[tr])
+                    fold.append(fn(d[te], m.predict((e[te], nn[te]))))
+                means.append(float(np.mean(fold)))
+            best = int(np.argmax(means))
+            ref = verde.Spline(damping=dampings[best], mindist=0).fit((e, nn), d).predict((e + 0.3, nn - 0.2))
+        order = sorted(means, reverse=True)
+        clear = len(order) < 2 or (order[0] - order[1]) > 1e-6 * max(abs(order[0]), abs(order[1]))
+        out = {"scores_are_the_mean_cross_validated_scores_of_independently_fitted_splines": bool(np.allclose(np.ravel(unwrap(scores)), means, rtol=1e-6, atol=0))}
+        if clear:
+            out["selects_the_candidate_with_the_highest_mean_score"] = float(chosen) == float(dampings[best])
+            out["predicts_like_a_spline_with_the_selected_parameters_fitted_to_all_the_data"] = bool(np.allclose(unwrap(pred), ref, rtol=1e-6, atol=1e-9 * float(np.abs(d).max())))
+        return out
